@@ -36,6 +36,7 @@ func (s *Session) AbortProbe(r *RNG, p Params, how string) {
 			from := base[kind] + nth
 			s.Disk.SetFault(func(k string, n, total int) simdisk.Action {
 				if k == kind && n >= from && n < from+1 {
+					s.IOFault = true
 					return simdisk.ActErr
 				}
 				return simdisk.ActOK
@@ -305,6 +306,7 @@ func RunFaultProgram(r *RNG, cfg Config, p Params) (*Session, FaultStats) {
 	s.Disk.SetFault(func(k string, n, total int) simdisk.Action {
 		if k == kind && n >= from && n < from+burst {
 			hits++
+			s.IOFault = true
 			if k == "sync" {
 				hitSyncIdx = append(hitSyncIdx, n)
 			}
